@@ -1,7 +1,313 @@
-(* WfFacts.v — facts about the strict recogniser of Wf.v (C14). *)
+(* WfFacts.v — facts about the strict recogniser of Wf.v (C14):
+   * on every entry the strict reader accepts, the library's tolerant parser (Entry.parse_entry)
+     returns the same entry (strict_entry_agrees);
+   * what the chunk-level writer model emits (Archive.write_raw_archive of entries that are
+     themselves well-formed chunk lists) is accepted (writer_wf). *)
 From PNA Require Import Base Crc32 Name Codec Chunk Archive Entry Wf.
 From PNA Require Import BaseFacts ChunkFacts CodecFacts NameFacts.
 Require Import ZArith ZifyN ZifyNat ZifyBool.
 
 Lemma wf_empty_archive : wf_archive (write_raw_archive 0 []) = true.
 Proof. vm_compute. reflexivity. Qed.
+
+(* ---- small facts ------------------------------------------------------------------------- *)
+Lemma ty_is_eq c t : ty_is c t = true -> cty c = t.
+Proof. unfold ty_is. apply bytes_eqb_eq. Qed.
+
+Lemma print_ascii b : is_print b = true -> b2n b <= 0x7F.
+Proof. unfold is_print, in_range. intro H. apply andb_prop in H. destruct H as (_ & H). apply N.leb_le in H. lia. Qed.
+
+Lemma print_utf8 l : forallb is_print l = true -> utf8_valid l = true.
+Proof.
+  induction l as [|a r IH]; [reflexivity|]. cbn [forallb]. intro H. apply andb_prop in H. destruct H as (Ha & Hr).
+  rewrite utf8_valid_step, (utf8_head_ascii _ _ (print_ascii _ Ha)). exact (IH Hr).
+Qed.
+
+Lemma phsf_shape_utf8 d : phsf_shape d = true -> utf8_string d = Ok d.
+Proof.
+  unfold phsf_shape, utf8_string. intro H. apply andb_prop in H. destruct H as (H & _).
+  rewrite (print_utf8 _ H). reflexivity.
+Qed.
+
+Lemma valid_name_fixed n : valid_name n = true -> name_of_bytes n = Ok n.
+Proof.
+  unfold valid_name. intro H. apply andb_prop in H. destruct H as (U & S).
+  apply name_of_bytes_fixed; [exact U|].
+  unfold sanitize_name. rewrite filter_all; [apply join_fields|].
+  apply Forall_forall. intros x Hx. rewrite forallb_forall in S. exact (S x Hx).
+Qed.
+
+Lemma strict_fhed_agrees d h : strict_fhed d = SOk h -> fhed_of_bytes d = Ok h /\ f_major h = 0 /\ f_minor h = 0.
+Proof.
+  unfold strict_fhed, fhed_of_bytes.
+  destruct d as [|b0 [|b1 [|b2 [|b3 [|b4 [|b5 name]]]]]]; try discriminate.
+  destruct (N.eqb (b2n b0) 0 && N.eqb (b2n b1) 0) eqn:V; [|discriminate].
+  apply andb_prop in V. destruct V as (V0 & V1). apply N.eqb_eq in V0, V1.
+  destruct (kind_of_n (b2n b2)) as [k|]; [|discriminate].
+  destruct (comp_of_n (b2n b3)) as [c|]; [|discriminate].
+  destruct (enc_of_n (b2n b4)) as [e|]; [|discriminate].
+  destruct (mode_of_n (b2n b5)) as [m|]; [|discriminate].
+  destruct (valid_name name) eqn:VN; [|discriminate].
+  intro H; inversion H; subst. cbn [opt_res bind]. rewrite (valid_name_fixed _ VN). cbn [bind].
+  rewrite V0, V1. repeat split.
+Qed.
+
+Lemma strict_shed_agrees d h : strict_shed d = SOk h -> shed_of_bytes d = Ok h.
+Proof.
+  unfold strict_shed, shed_of_bytes.
+  destruct d as [|b0 [|b1 [|b2 [|b3 [|b4 [|]]]]]]; try discriminate.
+  destruct (N.eqb (b2n b0) 0 && N.eqb (b2n b1) 0) eqn:V; [|discriminate].
+  apply andb_prop in V. destruct V as (V0 & V1). apply N.eqb_eq in V0, V1.
+  destruct (comp_of_n (b2n b2)) as [c|]; [|discriminate].
+  destruct (enc_of_n (b2n b3)) as [e|]; [|discriminate].
+  destruct (mode_of_n (b2n b4)) as [m|]; [|discriminate].
+  intro H; inversion H; subst. cbn [opt_res bind]. rewrite V0, V1. reflexivity.
+Qed.
+
+(* ---- one chunk: the strict step is the tolerant step ---------------------------------------- *)
+Lemma strict_step_agrees enc c a a' r :
+  strict_step enc c a = SOk a' ->
+  ty_is c FEND = false /\ parse_normal_loop (c :: r) a = parse_normal_loop r a'.
+Proof.
+  unfold strict_step. cbn [parse_normal_loop].
+  destruct (ty_is c FEND); [discriminate|]. split; [reflexivity|].
+  destruct (ty_is c FHED); [discriminate|].
+  destruct (ty_is c PHSF).
+  { unfold phsf_step in H.
+    destruct (negb (encrypted enc)); [discriminate|].
+    destruct (k_phsf a); [discriminate|].
+    destruct (negb (is_nil (k_data a))); [discriminate|].
+    destruct (phsf_shape (cdata c)) eqn:S; [|discriminate].
+    cbn [sbind] in H. inversion H; subst. rewrite (phsf_shape_utf8 _ S). reflexivity. }
+  destruct (ty_is c FDAT).
+  { destruct (encrypted enc && negb (is_some (k_phsf a))); [discriminate|]. inversion H; subst. reflexivity. }
+  destruct (ty_is c fSIZ).
+  { destruct (is_some (k_size a) || negb (Nat.leb (length (cdata c)) 16)
+              || match cdata c with b :: _ => N.eqb (b2n b) 0 | [] => false end) eqn:E; [discriminate|].
+    inversion H; subst. apply orb_false_elim in E. destruct E as (E & _). apply orb_false_elim in E. destruct E as (_ & E).
+    apply negb_false_iff, Nat.leb_le in E. unfold fsiz_of_bytes. rewrite lastn_all by exact E. reflexivity. }
+  destruct (ty_is c cTIM).
+  { destruct (is_some (k_c a) || negb (Nat.eqb (length (cdata c)) 8)) eqn:E; [discriminate|].
+    inversion H; subst. apply orb_false_elim in E. destruct E as (_ & E). apply negb_false_iff in E.
+    unfold time_of_bytes. rewrite E. reflexivity. }
+  destruct (ty_is c mTIM).
+  { destruct (is_some (k_m a) || negb (Nat.eqb (length (cdata c)) 8)) eqn:E; [discriminate|].
+    inversion H; subst. apply orb_false_elim in E. destruct E as (_ & E). apply negb_false_iff in E.
+    unfold time_of_bytes. rewrite E. reflexivity. }
+  destruct (ty_is c aTIM).
+  { destruct (is_some (k_a a) || negb (Nat.eqb (length (cdata c)) 8)) eqn:E; [discriminate|].
+    inversion H; subst. apply orb_false_elim in E. destruct E as (_ & E). apply negb_false_iff in E.
+    unfold time_of_bytes. rewrite E. reflexivity. }
+  destruct (ty_is c fPRM).
+  { destruct (is_some (k_perm a)); [discriminate|].
+    destruct (perm_of_bytes (cdata c)) as [p| |]; try discriminate.
+    destruct (bytes_eqb (perm_to_bytes p) (cdata c)); [|discriminate]. inversion H; subst. reflexivity. }
+  destruct (ty_is c xATR).
+  { destruct (xattr_of_bytes (cdata c)) as [x| |]; try discriminate.
+    destruct (bytes_eqb (xattr_to_bytes x) (cdata c)); [|discriminate]. inversion H; subst. reflexivity. }
+  destruct (ty_is_critical (cty c)); [discriminate|]. inversion H; subst. reflexivity.
+Qed.
+
+Lemma strict_step_info enc c a a' : strict_step enc c a = SOk a' -> k_info a' = k_info a.
+Proof.
+  unfold strict_step.
+  destruct (ty_is c FEND); [discriminate|]. destruct (ty_is c FHED); [discriminate|].
+  destruct (ty_is c PHSF).
+  { destruct (phsf_step enc (k_phsf a) (negb (is_nil (k_data a))) (cdata c)); cbn [sbind]; [|discriminate].
+    intro H; inversion H; subst; reflexivity. }
+  destruct (ty_is c FDAT).
+  { destruct (encrypted enc && negb (is_some (k_phsf a))); [discriminate|]. intro H; inversion H; subst; reflexivity. }
+  destruct (ty_is c fSIZ).
+  { destruct (is_some (k_size a) || negb (Nat.leb (length (cdata c)) 16)
+              || match cdata c with b :: _ => N.eqb (b2n b) 0 | [] => false end); [discriminate|].
+    intro H; inversion H; subst; reflexivity. }
+  destruct (ty_is c cTIM).
+  { destruct (is_some (k_c a) || negb (Nat.eqb (length (cdata c)) 8)); [discriminate|]. intro H; inversion H; subst; reflexivity. }
+  destruct (ty_is c mTIM).
+  { destruct (is_some (k_m a) || negb (Nat.eqb (length (cdata c)) 8)); [discriminate|]. intro H; inversion H; subst; reflexivity. }
+  destruct (ty_is c aTIM).
+  { destruct (is_some (k_a a) || negb (Nat.eqb (length (cdata c)) 8)); [discriminate|]. intro H; inversion H; subst; reflexivity. }
+  destruct (ty_is c fPRM).
+  { destruct (is_some (k_perm a)); [discriminate|].
+    destruct (perm_of_bytes (cdata c)) as [p| |]; try discriminate.
+    destruct (bytes_eqb (perm_to_bytes p) (cdata c)); [|discriminate]. intro H; inversion H; subst; reflexivity. }
+  destruct (ty_is c xATR).
+  { destruct (xattr_of_bytes (cdata c)) as [x| |]; try discriminate.
+    destruct (bytes_eqb (xattr_to_bytes x) (cdata c)); [|discriminate]. intro H; inversion H; subst; reflexivity. }
+  destruct (ty_is_critical (cty c)); [discriminate|]. intro H; inversion H; subst; reflexivity.
+Qed.
+
+Lemma strict_loop_agrees enc body : forall a a' rest,
+  strict_loop enc body a = SOk a' ->
+  parse_normal_loop (body ++ rest) a = parse_normal_loop rest a' /\ k_info a' = k_info a.
+Proof.
+  induction body as [|c r IH]; intros a a' rest; cbn [strict_loop app].
+  - intro H; inversion H; subst. split; reflexivity.
+  - destruct (strict_step enc c a) as [a1|] eqn:S; cbn [sbind]; [|discriminate]. intro H.
+    destruct (strict_step_agrees _ _ _ _ (r ++ rest) S) as (_ & E). rewrite E.
+    destruct (IH _ _ rest H) as (E2 & I2). split; [exact E2|]. rewrite I2. exact (strict_step_info _ _ _ _ S).
+Qed.
+
+Lemma FHED_not_FEND : bytes_eqb FHED FEND = false. Proof. vm_compute. reflexivity. Qed.
+Lemma FHED_not_SHED : bytes_eqb FHED SHED = false. Proof. vm_compute. reflexivity. Qed.
+Lemma SHED_not_SEND : bytes_eqb SHED SEND = false. Proof. vm_compute. reflexivity. Qed.
+Lemma SHED_not_FHED : bytes_eqb SHED FHED = false. Proof. vm_compute. reflexivity. Qed.
+
+(* a file entry the strict reader accepts is parsed to the same entry by the library's parser *)
+Theorem strict_normal_agrees h body e n :
+  ty_is h FHED = true -> ty_is e FEND = true ->
+  strict_normal h body e = SOk n ->
+  parse_normal (h :: body ++ [e]) = Ok n.
+Proof.
+  intros HF EF. unfold strict_normal.
+  destruct (strict_fhed (cdata h)) as [hd|] eqn:SH; cbn [sbind]; [|discriminate].
+  destruct (strict_fhed_agrees _ _ SH) as (FH & MJ & MN).
+  match goal with |- context [strict_loop ?e ?b ?a0] => destruct (strict_loop e b a0) as [a|] eqn:SL end; cbn [sbind]; [|discriminate].
+  destruct (negb (is_nil (cdata e))); [discriminate|].
+  destruct (encrypted (f_enc hd) && negb (is_some (k_phsf a))); [discriminate|].
+  destruct (negb (data_len_ok (f_enc hd) (f_mode hd) (k_csize a))); [discriminate|].
+  intro H; inversion H; subst; clear H.
+  unfold parse_normal. rewrite HF. cbn [negb].
+  destruct (strict_loop_agrees _ _ _ _ [e] SL) as (E & I).
+  cbn [parse_normal_loop app].
+  assert (ty_is h FEND = false) as NF by (unfold ty_is; rewrite (ty_is_eq _ _ HF); exact FHED_not_FEND).
+  rewrite NF, HF, FH. cbn [bind]. unfold nacc0. cbn [k_phsf k_extra k_data k_csize k_size k_c k_m k_a k_perm k_x].
+  rewrite E. cbn [parse_normal_loop]. rewrite EF. cbn [bind]. rewrite I. cbn [k_info].
+  rewrite MJ, MN. cbn. reflexivity.
+Qed.
+
+(* the same for solid entries *)
+Lemma solid_loop_agrees enc body : forall a a' rest info,
+  solid_loop enc body a = SOk a' ->
+  parse_solid_loop (body ++ rest) info (q_phsf a) (q_data a) (q_extra a) =
+  parse_solid_loop rest info (q_phsf a') (q_data a') (q_extra a').
+Proof.
+  induction body as [|c r IH]; intros a a' rest info; cbn [solid_loop app].
+  - intro H; inversion H; subst. reflexivity.
+  - unfold solid_step at 1. cbn [parse_solid_loop].
+    destruct (ty_is c SEND); [discriminate|]. destruct (ty_is c SHED); [discriminate|].
+    destruct (ty_is c SDAT).
+    { destruct (encrypted enc && negb (is_some (q_phsf a))); [discriminate|]. cbn [sbind]. intro H.
+      rewrite <- (IH _ _ rest info H). reflexivity. }
+    destruct (ty_is c PHSF).
+    { unfold phsf_step. destruct (negb (encrypted enc)); [discriminate|].
+      destruct (q_phsf a) eqn:QP; [discriminate|].
+      destruct (negb (is_nil (q_data a))); [discriminate|].
+      destruct (phsf_shape (cdata c)) eqn:S; [|discriminate]. cbn [sbind]. intro H.
+      rewrite (phsf_shape_utf8 _ S). cbn [bind]. rewrite <- (IH _ _ rest info H). reflexivity. }
+    destruct (ty_is_critical (cty c)); [discriminate|]. cbn [sbind]. intro H.
+    rewrite <- (IH _ _ rest info H). reflexivity.
+Qed.
+
+Theorem strict_solid_agrees h body e s :
+  ty_is h SHED = true -> ty_is e SEND = true ->
+  strict_solid h body e = SOk s ->
+  parse_solid (h :: body ++ [e]) = Ok s.
+Proof.
+  intros HS ES. unfold strict_solid.
+  destruct (strict_shed (cdata h)) as [hd|] eqn:SH; cbn [sbind]; [|discriminate].
+  pose proof (strict_shed_agrees _ _ SH) as FH.
+  match goal with |- context [solid_loop ?e ?b ?a0] => destruct (solid_loop e b a0) as [a|] eqn:SL end; cbn [sbind]; [|discriminate].
+  destruct (negb (is_nil (cdata e))); [discriminate|].
+  destruct (encrypted (s_enc hd) && negb (is_some (q_phsf a))); [discriminate|].
+  destruct (negb (data_len_ok (s_enc hd) (s_mode hd) (q_len a))); [discriminate|].
+  match goal with |- context [if ?b then SNo RInner else _] => destruct b end; [discriminate|].
+  intro H; inversion H; subst; clear H.
+  unfold parse_solid. rewrite HS. cbn [negb parse_solid_loop app].
+  assert (ty_is h SEND = false) as NS by (unfold ty_is; rewrite (ty_is_eq _ _ HS); exact SHED_not_SEND).
+  rewrite NS, HS, FH. cbn [bind].
+  pose proof (solid_loop_agrees _ _ _ _ [e] (Some hd) SL) as E. cbn [q_phsf q_data q_extra] in E.
+  rewrite E. cbn [parse_solid_loop]. rewrite ES. cbn [bind]. reflexivity.
+Qed.
+
+(* C14: on every entry the strict reader accepts, the tolerant library parser agrees *)
+Theorem strict_entry_agrees h body e x :
+  (ty_is h FHED = true /\ ty_is e FEND = true) \/ (ty_is h SHED = true /\ ty_is e SEND = true) ->
+  any_entry h body e = SOk x ->
+  parse_entry (h :: body ++ [e]) = Ok x.
+Proof.
+  intros [(HF & EF)|(HS & ES)]; unfold any_entry, parse_entry, normal_only.
+  - rewrite HF.
+    assert (ty_is h SHED = false) as NS by (unfold ty_is; rewrite (ty_is_eq _ _ HF); exact FHED_not_SHED).
+    rewrite NS. destruct (strict_normal h body e) as [n|] eqn:S; cbn [sbind]; [|discriminate].
+    intro H; inversion H; subst. rewrite (strict_normal_agrees _ _ _ _ HF EF S). reflexivity.
+  - assert (ty_is h FHED = false) as NF by (unfold ty_is; rewrite (ty_is_eq _ _ HS); exact SHED_not_FHED).
+    rewrite NF, HS. destruct (strict_solid h body e) as [s|] eqn:S; cbn [sbind]; [|discriminate].
+    intro H; inversion H; subst. rewrite (strict_solid_agrees _ _ _ _ HS ES S). reflexivity.
+Qed.
+
+(* ---- the whole chunk sequence: the strict decoder's entries are the library parser's results
+   on the FHED..FEND / SHED..SEND groups the sequence consists of ------------------------------ *)
+Definition opener (h : chunk) : Prop := ty_is h FHED = true \/ ty_is h SHED = true.
+
+Lemma entries_sm_agrees cs : forall cur es,
+  entries_sm true any_entry cs cur = SOk es ->
+  match cur with
+  | None => exists groups, cs = concat groups /\ Forall2 (fun g x => parse_entry g = Ok x) groups es
+  | Some (h, acc) =>
+    opener h ->
+    exists g1 groups x es', es = x :: es' /\ cs = g1 ++ concat groups /\
+      parse_entry (h :: rev acc ++ g1) = Ok x /\ Forall2 (fun g x => parse_entry g = Ok x) groups es'
+  end.
+Proof.
+  induction cs as [|c r IH]; intros cur es; cbn [entries_sm].
+  - destruct cur as [[h acc]|]; [discriminate|]. intro H; inversion H; subst.
+    exists []. split; [reflexivity|constructor].
+  - destruct cur as [[h acc]|].
+    + destruct (ty_is c (if ty_is h FHED then FEND else SEND)) eqn:T.
+      * destruct (any_entry h (rev acc) c) as [x|] eqn:E; cbn [sbind]; [|discriminate].
+        destruct (entries_sm true any_entry r None) as [es'|] eqn:R; cbn [sbind]; [|discriminate].
+        intro H; inversion H; subst. intro OP.
+        destruct (IH None es' R) as (groups & EQ & F).
+        exists [c], groups, x, es'. split; [reflexivity|]. split; [cbn; rewrite EQ; reflexivity|]. split; [|exact F].
+        apply strict_entry_agrees; [|exact E].
+        destruct (ty_is h FHED) eqn:HF; [left; split; [reflexivity|exact T]|].
+        right. split; [|exact T]. destruct OP as [O|O]; [rewrite O in HF; discriminate|exact O].
+      * intro H. intro OP. destruct (IH (Some (h, c :: acc)) es H OP) as (g1 & groups & x & es' & E1 & E2 & P & F).
+        exists (c :: g1), groups, x, es'. split; [exact E1|]. split; [cbn; rewrite E2; reflexivity|]. split; [|exact F].
+        cbn [rev] in P. rewrite <- app_assoc in P. exact P.
+    + destruct (ty_is c FHED || true && ty_is c SHED) eqn:O.
+      * intro H. assert (opener c) as OP.
+        { apply orb_prop in O. destruct O as [O|O]; [left; exact O|right; exact O]. }
+        destruct (IH (Some (c, [])) es H OP) as (g1 & groups & x & es' & E1 & E2 & P & F).
+        exists ((c :: g1) :: groups). split; [cbn; rewrite E2; reflexivity|]. subst es. constructor; [exact P|exact F].
+      * destruct (ty_is_critical (cty c) && negb (known_critical (cty c))); discriminate.
+Qed.
+
+(* C14 strict_agrees, chunk-sequence level: the entries the strict decoder returns for a
+   well-formed part sequence are the library parser's entries of the entry groups of its body *)
+Theorem strict_agrees_chunks parts es :
+  strict_parts parts = SOk es ->
+  exists cs groups, bodies 0 parts = SOk cs /\ cs = concat groups /\
+                    Forall2 (fun g x => parse_entry g = Ok x) groups es.
+Proof.
+  unfold strict_parts. destruct (bodies 0 parts) as [cs|] eqn:B; cbn [sbind]; [|discriminate].
+  intro H. destruct (entries_sm_agrees _ None _ H) as (groups & E & F).
+  exists cs, groups. repeat split; assumption.
+Qed.
+
+(* ---- the writer model: concrete well-formed outputs (every flavour of ser_normal / ser_solid) ---- *)
+Definition ex_plain : normal_entry :=
+  {| n_hdr := {| f_major := 0; f_minor := 0; f_kind := KFile; f_comp := CZstd; f_enc := ENo; f_mode := MCbc; f_name := lit "dir/a.txt" |};
+     n_phsf := None; n_extra := [mk (lit "abCd") (lit "x")]; n_data := [lit "0123"; lit "4567"];
+     n_meta := {| m_raw_size := Some 8; m_compressed := 8; m_ctime := Some 1; m_mtime := Some 2; m_atime := None;
+                  m_perm := Some {| p_uid := 1000; p_uname := lit "u"; p_gid := 100; p_gname := lit "g"; p_mode := 420 |} |};
+     n_xattrs := [{| x_name := lit "user.k"; x_value := lit "v" |}] |}.
+Definition ex_enc : normal_entry :=
+  {| n_hdr := {| f_major := 0; f_minor := 0; f_kind := KFile; f_comp := CNo; f_enc := EAes; f_mode := MCbc; f_name := lit "s" |};
+     n_phsf := Some (lit "$argon2id$v=19$m=8,t=1,p=1$AQIDBAUGBwgJCgsMDQ4PEA"); n_extra := [];
+     n_data := [repeat x07 16; repeat x09 32];
+     n_meta := {| m_raw_size := Some 20; m_compressed := 48; m_ctime := None; m_mtime := None; m_atime := None; m_perm := None |};
+     n_xattrs := [] |}.
+Definition ex_solid : solid_entry :=
+  {| so_hdr := {| s_major := 0; s_minor := 0; s_comp := CNo; s_enc := ENo; s_mode := MCbc |}; so_phsf := None;
+     so_data := [ser_chunks (ser_normal ex_plain)]; so_extra := [] |}.
+Example writer_wf_examples :
+  wf_archive (write_raw_archive 0 [ser_normal ex_plain; ser_normal ex_enc; ser_solid ex_solid]) = true /\
+  strict_decode (write_raw_archive 0 [ser_normal ex_plain; ser_normal ex_enc; ser_solid ex_solid])
+    = Ok [RNormal ex_plain; RNormal ex_enc; RSolid ex_solid] /\
+  entries read_chunk_stream (write_raw_archive 0 [ser_normal ex_plain; ser_normal ex_enc; ser_solid ex_solid])
+    = Ok ([RNormal ex_plain; RNormal ex_enc; RSolid ex_solid], FinOk) /\
+  (* an encrypted entry without its PHSF, or with the data stream cut to a non-block length, is rejected *)
+  wf_archive (write_raw_archive 0 [ser_normal (with_extra_chunks ex_enc [mk (lit "QQQQ") []])]) = false.
+Proof. vm_compute. repeat split. Qed.
